@@ -2,30 +2,21 @@
    Property theorems only; every proof is [exact <lemma>].
    Model: model/C08_Value.v (equal = vals.Equal, hash = vals.Hash in uint32
    arithmetic), hm_* = a hash table with the Equal/Hash interface.
-   wf v : float patterns are 64-bit and map keys are pairwise not Equal.
-   nz v : no float -0.0 anywhere inside v. *)
+   wf v : float patterns are 64-bit and map keys are pairwise not Equal. *)
 From verif Require Import lib.Base model.C08_Value model.C08.
 From verif Require Import proofs.C08_Value_proofs proofs.C08_proofs.
 Open Scope N_scope.
 
-(* FULL STATEMENT (the property):
-     forall a b, wf a -> wf b -> equal a b = true -> hash a = hash b.
-   It is FALSE of the faithful model and of the code: *)
-Theorem C08_equal_hash_refuted :
-  exists a b, wf a /\ wf b /\ equal a b = true /\ hash a <> hash b.
-Proof. exact equal_hash_refuted_w. Qed.
-Print Assumptions C08_equal_hash_refuted.
-
-(* ... and it holds for all values, of any size and nesting, that hold no
-   float -0.0: numbers of all four representations, strings, lists, maps
+(* The property: Equal values hash identically — for all well-formed values of
+   any size and nesting: numbers of all four representations (+0.0 and -0.0
+   included, since vals.Hash hashes the canonical zero), strings, lists, maps
    whatever their insertion order, functions. *)
-Theorem C08_equal_hash_partial : forall a b,
-  wf a -> wf b -> has_negzero a = false -> has_negzero b = false ->
-  equal a b = true -> hash a = hash b.
-Proof. exact equal_hash_partial. Qed.
-Print Assumptions C08_equal_hash_partial.
+Theorem C08_equal_hash : forall a b,
+  wf a -> wf b -> equal a b = true -> hash a = hash b.
+Proof. exact equal_hash. Qed.
+Print Assumptions C08_equal_hash.
 
-(* the sign of zero is the only way two Equal floats can differ in bits *)
+(* two Equal floats have the same bits or are both zeros *)
 Theorem C08_equal_float_bits : forall x y,
   x < 2 ^ 64 -> y < 2 ^ 64 -> equal (VFloat x) (VFloat y) = true ->
   x = y \/ (f_is_zero x = true /\ f_is_zero y = true).
@@ -33,43 +24,30 @@ Proof. exact equal_float_bits. Qed.
 Print Assumptions C08_equal_float_bits.
 
 (* Map level, for any hash table that looks a key up in the bucket of its hash
-   and compares with Equal: eq keys without -0.0 give identical lookup, dissoc
-   and assoc results, for maps of every size. *)
-Theorem C08_eq_keys_same_slot_partial : forall a b m v,
-  good a -> good b -> equal a b = true -> keys_wf m ->
+   and compares with Equal: eq keys give identical lookup, dissoc and assoc
+   results, for maps of every size. *)
+Theorem C08_eq_keys_same_slot : forall a b m v,
+  wf a -> wf b -> equal a b = true -> keys_wf m ->
   hm_find a m = hm_find b m /\
   hm_dissoc a m = hm_dissoc b m /\
   map snd (hm_assoc a v m) = map snd (hm_assoc b v m) /\
   length (hm_assoc a v m) = length (hm_assoc b v m) /\
   (forall k, wf k -> hm_find k (hm_assoc a v m) = hm_find k (hm_assoc b v m)).
-Proof. exact eq_keys_same_slot_partial. Qed.
-Print Assumptions C08_eq_keys_same_slot_partial.
+Proof. exact eq_keys_same_slot. Qed.
+Print Assumptions C08_eq_keys_same_slot.
 
-(* FULL STATEMENT: the same without [good] (i.e. with -0.0 allowed) — false: *)
-Theorem C08_eq_keys_same_slot_refuted :
-  exists a b m, wf a /\ wf b /\ equal a b = true /\ keys_wf m /\ hm_find a m <> hm_find b m.
-Proof. exact eq_keys_same_slot_refuted_w. Qed.
-Print Assumptions C08_eq_keys_same_slot_refuted.
+(* No history of assoc/dissoc ever produces a map holding two Equal keys. *)
+Theorem C08_no_two_eq_keys : forall ops,
+  (forall o, In o ops -> wf (op_key o)) -> no_eq_keys (hm_run ops).
+Proof. exact no_two_eq_keys_wf. Qed.
+Print Assumptions C08_no_two_eq_keys.
 
-(* No history of assoc/dissoc ever produces a map holding two Equal keys, as
-   long as the keys hold no -0.0 ... *)
-Theorem C08_no_two_eq_keys_partial : forall ops,
-  (forall o, In o ops -> good (op_key o)) -> no_eq_keys (hm_run ops).
-Proof. exact no_two_eq_keys_partial. Qed.
-Print Assumptions C08_no_two_eq_keys_partial.
-
-(* ... in general for every key universe on which Equal implies equal hashes *)
-Theorem C08_no_two_eq_keys : forall U : value -> Prop,
+(* ... which needs nothing but "Equal implies equal hashes" of the keys used *)
+Theorem C08_no_two_eq_keys_any_hash : forall U : value -> Prop,
   (forall x, U x -> wf x) -> hash_ok U ->
   forall ops, (forall o, In o ops -> U (op_key o)) -> no_eq_keys (hm_run ops).
 Proof. exact no_two_eq_keys. Qed.
-Print Assumptions C08_no_two_eq_keys.
-
-(* FULL STATEMENT: for all well-formed keys — false: assoc 0.0; assoc -0.0 *)
-Theorem C08_two_eq_keys_refuted :
-  exists ops, (forall o, In o ops -> wf (op_key o)) /\ ~ no_eq_keys (hm_run ops).
-Proof. exact two_eq_keys_refuted_w. Qed.
-Print Assumptions C08_two_eq_keys_refuted.
+Print Assumptions C08_no_two_eq_keys_any_hash.
 
 (* The oracles evaluated on the implementation's observations state the
    property. *)
@@ -82,13 +60,17 @@ Proof. exact check_map_sound. Qed.
 Print Assumptions C08_oracle_map_sound.
 
 (* what the model predicts for a pair passes the oracle *)
-Theorem C08_model_pair_ok : forall a b, good a -> good b -> check_pair (model_pair a b) = true.
+Theorem C08_model_pair_ok : forall a b, wf a -> wf b -> check_pair (model_pair a b) = true.
 Proof. exact model_pair_ok. Qed.
 Print Assumptions C08_model_pair_ok.
 
 (* non-vacuity: differently built Equal values; bit-exact hashes as Go gives *)
 Example C08_ex_rat : equal (VRat (mkrat 1 3)) (VRat (mkrat 5 15)) = true
   /\ hash (VRat (mkrat 1 3)) = 205097973 /\ hash (VRat (mkrat 5 15)) = 205097973.
+Proof. vm_compute. auto. Qed.
+Example C08_ex_signed_zero :
+  equal (VFloat 0) (VFloat (2 ^ 63)) = true /\ hash (VFloat 0) = hash (VFloat (2 ^ 63))
+  /\ length (hm_run [MAssoc (VFloat 0) 1%Z; MAssoc (VInt (2 ^ 30)) 2%Z; MAssoc (VFloat (2 ^ 63)) 3%Z]) = 2%nat.
 Proof. vm_compute. auto. Qed.
 Example C08_ex_map_order :
   let a := VMap [(VStr [97], VInt 1); (VStr [98], VList false [VBig (2 ^ 64)])] in
